@@ -22,6 +22,16 @@ pub fn dispatch(prop: &str, g: &mut Gen) {
         "C18" => crate::gen_ser::c18(g),
         "C19" => crate::gen_ser::c19(g),
         "C20" => crate::gen_ser::c20(g),
+        // per-structure parts of the boundary (C09) and iterator-history (C10) generators, so that the check of a
+        // structure's own property also runs them
+        "C09bv" => crate::gen_bv::c09_bv(g),
+        "C09sp" => crate::gen_sp::c09_sp(g),
+        "C09rl" => crate::gen_rl::c09_rl(g),
+        "C09wm" => crate::gen_wm::c09_wm(g),
+        "C10bv" => crate::gen_bv::c10_bv(g),
+        "C10sp" => crate::gen_sp::c10_sp(g),
+        "C10rl" => crate::gen_rl::c10_rl(g),
+        "C10wm" => crate::gen_wm::c10_wm(g),
         _ => panic!("harness: no generator for property {}", prop),
     }
 }
@@ -33,7 +43,7 @@ fn mask(w: u64) -> u64 { if w >= 64 { !0 } else { (1u64 << w) - 1 } }
 
 /// One iv history; `ops` are indices into the op alphabet. The generator keeps its own reference list so that it
 /// can emit the "freshly built equal vector" comparison at the end.
-fn iv_history(g: &mut Gen, w: u64, ops: &[usize], check_every: bool) -> Vec<String> {
+pub fn iv_history(g: &mut Gen, w: u64, ops: &[usize], check_every: bool) -> Vec<String> {
     let mut lines = vec![format!("iv A new {}", w)];
     let mut items: Vec<u64> = Vec::new();
     let mut width = w;
@@ -72,7 +82,7 @@ fn iv_history(g: &mut Gen, w: u64, ops: &[usize], check_every: bool) -> Vec<Stri
     lines
 }
 
-fn raw_history(g: &mut Gen, ops: &[usize]) -> Vec<String> {
+pub fn raw_history(g: &mut Gen, ops: &[usize]) -> Vec<String> {
     let mut lines = vec!["raw A new".to_string()];
     let mut len: u64 = 0;
     let mut bits: Vec<bool> = Vec::new();
